@@ -12,20 +12,21 @@ Core Lean only.
 -/
 namespace FeatModel.C11
 
-/-- an admissible atlas entry of a `dim`-dimensional mesh file: a non-empty admissible name; a `Circle` in 2D /
+/-- an admissible atlas entry of a mesh file with WORLD dimension `wdim` (the shape dimension is irrelevant, as in
+    FEAT's `DimensionalChartHelper<world_dim>`): a non-empty admissible name; a `Circle` in 2D /
     `Sphere` in 3D with a radius not below the reader's threshold (and a non-degenerate circle domain); a `Bezier`
     chart in 2D that satisfies `BezierOk` (`C11Bezier.lean`) -/
-def ChartOk (dim : Nat) (name : Str) (c : Chart) : Prop :=
+def ChartOk (wdim : Nat) (name : Str) (c : Chart) : Prop :=
   name ≠ [] ∧ NameOk name ∧
   match c with
-  | .circle r _ _ dom => dim = 2 ∧ ¬ r < radiusMin ∧ (∀ l rr, dom = some (l, rr) → l ≠ rr)
-  | .sphere r _ _ _ => dim = 3 ∧ ¬ r < radiusMin
-  | .bezier cl o segs params => dim = 2 ∧ BezierOk cl o segs params
+  | .circle r _ _ dom => wdim = 2 ∧ ¬ r < radiusMin ∧ (∀ l rr, dom = some (l, rr) → l ≠ rr)
+  | .sphere r _ _ _ => wdim = 3 ∧ ¬ r < radiusMin
+  | .bezier cl o segs params => wdim = 2 ∧ BezierOk cl o segs params
 
-theorem ChartOk_bezier_iff (dim : Nat) (name : Str) (cl : Bool) (o : Rat)
+theorem ChartOk_bezier_iff (wdim : Nat) (name : Str) (cl : Bool) (o : Rat)
     (segs : List (List (List Rat) × List Rat)) (params : List Rat) :
-    ChartOk dim name (.bezier cl o segs params) ↔
-      name ≠ [] ∧ NameOk name ∧ dim = 2 ∧ BezierOk cl o segs params := Iff.rfl
+    ChartOk wdim name (.bezier cl o segs params) ↔
+      name ≠ [] ∧ NameOk name ∧ wdim = 2 ∧ BezierOk cl o segs params := Iff.rfl
 
 end FeatModel.C11
 
@@ -418,19 +419,19 @@ theorem Run_closed_line {k : Nat} {a : Char} {t : Str} (ha : a ≠ '!') {m : Mar
   exact step_open_closed (trim_markup_line k (a :: t)) (by simp) (markup_not_comment ha) hs hterm hclosed (ho _)
 
 /-- `<Chart name="…">` below the root: a `ChartParser` without a chart is pushed -/
-theorem openM_chart (sh : Shape) (dim : Nat) (mesh : Option Mesh) (parts : List (Str × Part))
+theorem openM_chart (sh : Shape) (dim wdim : Nat) (mesh : Option Mesh) (parts : List (Str × Part))
     (pts : List Partition) (chs : List (Str × Chart)) (line : Nat) (name : Str) (hne : name ≠ [])
     (hfresh : mapFind strLt name chs = none) :
-    openM (mkSt sh dim [Frame.root] ⟨mesh, parts, pts, chs⟩) line
+    openM (mkSt sh dim [Frame.root] ⟨mesh, parts, pts, chs, wdim⟩) line
       (⟨"Chart".toList, [("name".toList, name)], false, false⟩ : Markup) =
-      .ok (mkSt sh dim [Frame.chart name none, Frame.root] ⟨mesh, parts, pts, chs⟩) := by
+      .ok (mkSt sh dim [Frame.chart name none, Frame.root] ⟨mesh, parts, pts, chs, wdim⟩) := by
   have hc : checkAttribs line (specOf "Chart") [("name".toList, name)] = .ok () := by
     simp [checkAttribs, specOf]
   have a1 : attrOf (⟨"Chart".toList, [("name".toList, name)], false, false⟩ : Markup) "name" = some name := by
     have h1 : strLt "name".toList "name".toList = false := by decide
     simp only [attrOf, mapFind, h1]; rfl
   have hemp : name.isEmpty = false := by cases name <;> simp_all
-  generalize hst : mkSt sh dim [Frame.root] ⟨mesh, parts, pts, chs⟩ = st
+  generalize hst : mkSt sh dim [Frame.root] ⟨mesh, parts, pts, chs, wdim⟩ = st
   generalize hmm : (⟨"Chart".toList, [("name".toList, name)], false, false⟩ : Markup) = m at a1
   have hstack : st.stack = [Frame.root] := by rw [← hst]; rfl
   have hcharts : mapFind strLt name st.node.charts = none := by rw [← hst]; exact hfresh
@@ -444,7 +445,7 @@ theorem openM_chart (sh : Shape) (dim : Nat) (mesh : Option Mesh) (parts : List 
 
 /-- the closed element line inside a `<Chart>`: the chart is stored in the `ChartParser` -/
 theorem openM_chart_item (sh : Shape) (dim : Nat) (name : Str) (o : Option Chart) (rs : List Frame) (node : Node)
-    (line : Nat) (c : Chart) (hok : ChartOk dim name c) (hnb : OneLine c) :
+    (line : Nat) (c : Chart) (hok : ChartOk node.wdim name c) (hnb : OneLine c) :
     openM (mkSt sh dim (Frame.chart name o :: rs) node) line (chartMarkup c) =
       .ok (mkSt sh dim (Frame.chart name (some c) :: rs) node) := by
   obtain ⟨-, -, hc⟩ := hok
@@ -452,77 +453,75 @@ theorem openM_chart_item (sh : Shape) (dim : Nat) (name : Str) (o : Option Chart
   | bezier cl o segs params => exact absurd rfl (hnb cl o segs params)
   | circle r mx my dom =>
     obtain ⟨hdim, hr, hdom⟩ := hc
-    subst hdim
     have hck := checkAttribs_circle line r mx my dom
     have hm := circleCreate_printed line r mx my dom hr hdom
     have hn : String.ofList (circleMarkup r mx my dom).name = "Circle" := String_ofList_toList _
     have hcl : (circleMarkup r mx my dom).closed = true := rfl
-    show openM (mkSt sh 2 (Frame.chart name o :: rs) node) line (circleMarkup r mx my dom) = _
-    generalize hst : mkSt sh 2 (Frame.chart name o :: rs) node = st
+    show openM (mkSt sh dim (Frame.chart name o :: rs) node) line (circleMarkup r mx my dom) = _
+    generalize hst : mkSt sh dim (Frame.chart name o :: rs) node = st
     generalize circleMarkup r mx my dom = m at hm hck hn hcl ⊢
     have hstack : st.stack = Frame.chart name o :: rs := by rw [← hst]; rfl
-    have hd : st.dim = 2 := by rw [← hst]; rfl
+    have hd : st.wdim = 2 := by rw [← hst]; exact hdim
     unfold openM
     rw [hstack]
     simp only [hn, hck, hcl, hm, hd]
-    simp [← hst, mkSt]
+    simp [← hst, mkSt, hdim]
   | sphere r mx my mz =>
     obtain ⟨hdim, hr⟩ := hc
-    subst hdim
     have hck := checkAttribs_sphere line r mx my mz
     have hm := sphereCreate_printed line r mx my mz hr
     have hn : String.ofList (sphereMarkup r mx my mz).name = "Sphere" := String_ofList_toList _
     have hcl : (sphereMarkup r mx my mz).closed = true := rfl
-    show openM (mkSt sh 3 (Frame.chart name o :: rs) node) line (sphereMarkup r mx my mz) = _
-    generalize hst : mkSt sh 3 (Frame.chart name o :: rs) node = st
+    show openM (mkSt sh dim (Frame.chart name o :: rs) node) line (sphereMarkup r mx my mz) = _
+    generalize hst : mkSt sh dim (Frame.chart name o :: rs) node = st
     generalize sphereMarkup r mx my mz = m at hm hck hn hcl ⊢
     have hstack : st.stack = Frame.chart name o :: rs := by rw [← hst]; rfl
-    have hd : st.dim = 3 := by rw [← hst]; rfl
+    have hd : st.wdim = 3 := by rw [← hst]; exact hdim
     unfold openM
     rw [hstack]
     simp only [hn, hck, hcl, hm, hd]
-    simp [← hst, mkSt]
+    simp [← hst, mkSt, hdim]
 
 /-- `</Chart>`: the chart is inserted into the atlas -/
-theorem closeTop_chart_frame (sh : Shape) (dim : Nat) (name : Str) (c : Chart) (rs : List Frame)
+theorem closeTop_chart_frame (sh : Shape) (dim wdim : Nat) (name : Str) (c : Chart) (rs : List Frame)
     (mesh : Option Mesh) (parts : List (Str × Part)) (pts : List Partition) (chs : List (Str × Chart))
     (line : Nat) :
-    closeTop (mkSt sh dim (Frame.chart name (some c) :: rs) ⟨mesh, parts, pts, chs⟩) line =
-      .ok (mkSt sh dim rs ⟨mesh, parts, pts, mapInsert strLt name c chs⟩) := by
+    closeTop (mkSt sh dim (Frame.chart name (some c) :: rs) ⟨mesh, parts, pts, chs, wdim⟩) line =
+      .ok (mkSt sh dim rs ⟨mesh, parts, pts, mapInsert strLt name c chs, wdim⟩) := by
   simp [closeTop, mkSt]
 
 theorem chartMarkup_flags (c : Chart) : (chartMarkup c).termin = false ∧ (chartMarkup c).closed = true := by
   cases c <;> exact ⟨rfl, rfl⟩
 
 /-- **a whole `<Chart>` block**: from the root frame to the root frame, the chart is in the atlas -/
-theorem Run_writeChart_oneLine (sh : Shape) (dim : Nat) (mesh : Option Mesh) (parts : List (Str × Part))
-    (pts : List Partition) (chs : List (Str × Chart)) (name : Str) (c : Chart) (hok : ChartOk dim name c)
+theorem Run_writeChart_oneLine (sh : Shape) (dim wdim : Nat) (mesh : Option Mesh) (parts : List (Str × Part))
+    (pts : List Partition) (chs : List (Str × Chart)) (name : Str) (c : Chart) (hok : ChartOk wdim name c)
     (hnb : OneLine c)
     (hfresh : mapFind strLt name chs = none) (b : Str) (below : List Str) :
-    Run (writeChart name c) (b :: below) (mkSt sh dim [Frame.root] ⟨mesh, parts, pts, chs⟩) (b :: below)
-      (mkSt sh dim [Frame.root] ⟨mesh, parts, pts, mapInsert strLt name c chs⟩) := by
+    Run (writeChart name c) (b :: below) (mkSt sh dim [Frame.root] ⟨mesh, parts, pts, chs, wdim⟩) (b :: below)
+      (mkSt sh dim [Frame.root] ⟨mesh, parts, pts, mapInsert strLt name c chs, wdim⟩) := by
   rw [writeChart_eq name c hnb]
   have r1 := Run_open_line (k := 2) (a := 'C') (by decide) (scan_chart_line name hok.2.1) rfl rfl
-    (fun line => openM_chart sh dim mesh parts pts chs line name hok.1 hfresh) (b :: below)
+    (fun line => openM_chart sh dim wdim mesh parts pts chs line name hok.1 hfresh) (b :: below)
   have r2 := Run_closed_line (k := 4) (chartHead_ne c) (scan_chart_item_line c hnb) (chartMarkup_flags c).1
     (chartMarkup_flags c).2
-    (fun line => openM_chart_item sh dim name none [Frame.root] ⟨mesh, parts, pts, chs⟩ line c hok hnb)
+    (fun line => openM_chart_item sh dim name none [Frame.root] ⟨mesh, parts, pts, chs, wdim⟩ line c hok hnb)
     ("Chart".toList :: b :: below)
   have r3 := Run_close_line (k := 2) (nm := "Chart".toList) (by decide)
-    (fun line => closeTop_chart_frame sh dim name c [Frame.root] mesh parts pts chs line) b below
+    (fun line => closeTop_chart_frame sh dim wdim name c [Frame.root] mesh parts pts chs line) b below
   exact Run.append (Run.append r1 r2) r3
 
 /-- **a whole `<Chart>` block**: from the root frame to the root frame, the chart is in the atlas -/
-theorem Run_writeChart (sh : Shape) (dim : Nat) (mesh : Option Mesh) (parts : List (Str × Part))
-    (pts : List Partition) (chs : List (Str × Chart)) (name : Str) (c : Chart) (hok : ChartOk dim name c)
+theorem Run_writeChart (sh : Shape) (dim wdim : Nat) (mesh : Option Mesh) (parts : List (Str × Part))
+    (pts : List Partition) (chs : List (Str × Chart)) (name : Str) (c : Chart) (hok : ChartOk wdim name c)
     (hfresh : mapFind strLt name chs = none) (b : Str) (below : List Str) :
-    Run (writeChart name c) (b :: below) (mkSt sh dim [Frame.root] ⟨mesh, parts, pts, chs⟩) (b :: below)
-      (mkSt sh dim [Frame.root] ⟨mesh, parts, pts, mapInsert strLt name c chs⟩) := by
+    Run (writeChart name c) (b :: below) (mkSt sh dim [Frame.root] ⟨mesh, parts, pts, chs, wdim⟩) (b :: below)
+      (mkSt sh dim [Frame.root] ⟨mesh, parts, pts, mapInsert strLt name c chs, wdim⟩) := by
   cases c with
   | circle r mx my dom =>
-    exact Run_writeChart_oneLine sh dim mesh parts pts chs name _ hok (fun _ _ _ _ h => by cases h) hfresh b below
+    exact Run_writeChart_oneLine sh dim wdim mesh parts pts chs name _ hok (fun _ _ _ _ h => by cases h) hfresh b below
   | sphere r mx my mz =>
-    exact Run_writeChart_oneLine sh dim mesh parts pts chs name _ hok (fun _ _ _ _ h => by cases h) hfresh b below
+    exact Run_writeChart_oneLine sh dim wdim mesh parts pts chs name _ hok (fun _ _ _ _ h => by cases h) hfresh b below
   | bezier cl o segs params =>
     obtain ⟨hne, hname, hdim, hbz⟩ := hok
     subst hdim
@@ -535,46 +534,46 @@ theorem Run_writeChart (sh : Shape) (dim : Nat) (mesh : Option Mesh) (parts : Li
       [sp 2 ++ "</Chart>".toList]) _ _ _ _
     rw [e1, e3]
     have r1 := Run_open_line (k := 2) (a := 'C') (by decide) (scan_chart_line name hname) rfl rfl
-      (fun line => openM_chart sh 2 mesh parts pts chs line name hne hfresh) (b :: below)
-    have r2 := BZ.Run_writeBezier sh name none [Frame.root] ⟨mesh, parts, pts, chs⟩ "Chart".toList (b :: below)
+      (fun line => openM_chart sh dim 2 mesh parts pts chs line name hne hfresh) (b :: below)
+    have r2 := BZ.Run_writeBezier sh dim name none [Frame.root] ⟨mesh, parts, pts, chs, 2⟩ rfl "Chart".toList (b :: below)
       cl o segs params hbz
     have r3 := Run_close_line (k := 2) (nm := "Chart".toList) (by decide)
-      (fun line => closeTop_chart_frame sh 2 name (Chart.bezier cl o segs params) [Frame.root] mesh parts pts chs
+      (fun line => closeTop_chart_frame sh dim 2 name (Chart.bezier cl o segs params) [Frame.root] mesh parts pts chs
         line) b below
     exact Run.append (Run.append r1 r2) r3
 
 /-- **a whole `<Chart>` block with a Bezier chart** (the Bezier instance of `Run_writeChart`): running the scanner over
     the printed block from a root-frame state adds `(name, chart)` to `node.charts` -/
-theorem Run_writeChart_bezier (sh : Shape) (mesh : Option Mesh) (parts : List (Str × Part))
+theorem Run_writeChart_bezier (sh : Shape) (dim : Nat) (mesh : Option Mesh) (parts : List (Str × Part))
     (pts : List Partition) (chs : List (Str × Chart)) (name : Str) (cl : Bool) (o : Rat)
     (segs : List (List (List Rat) × List Rat)) (params : List Rat)
     (hne : name ≠ []) (hname : NameOk name) (hbz : BezierOk cl o segs params)
     (hfresh : mapFind strLt name chs = none) (b : Str) (below : List Str) :
     Run (writeChart name (.bezier cl o segs params)) (b :: below)
-      (mkSt sh 2 [Frame.root] ⟨mesh, parts, pts, chs⟩) (b :: below)
-      (mkSt sh 2 [Frame.root] ⟨mesh, parts, pts, mapInsert strLt name (.bezier cl o segs params) chs⟩) :=
-  Run_writeChart sh 2 mesh parts pts chs name (.bezier cl o segs params)
+      (mkSt sh dim [Frame.root] ⟨mesh, parts, pts, chs, 2⟩) (b :: below)
+      (mkSt sh dim [Frame.root] ⟨mesh, parts, pts, mapInsert strLt name (.bezier cl o segs params) chs, 2⟩) :=
+  Run_writeChart sh dim 2 mesh parts pts chs name (.bezier cl o segs params)
     ((ChartOk_bezier_iff 2 name cl o segs params).2 ⟨hne, hname, rfl, hbz⟩) hfresh b below
 
 /-- the same with the chart appended, when all names in the atlas are smaller -/
-theorem Run_writeChart_append (sh : Shape) (dim : Nat) (mesh : Option Mesh) (parts : List (Str × Part))
-    (pts : List Partition) (chs : List (Str × Chart)) (name : Str) (c : Chart) (hok : ChartOk dim name c)
+theorem Run_writeChart_append (sh : Shape) (dim wdim : Nat) (mesh : Option Mesh) (parts : List (Str × Part))
+    (pts : List Partition) (chs : List (Str × Chart)) (name : Str) (c : Chart) (hok : ChartOk wdim name c)
     (hfresh : ∀ kv ∈ chs, strLt kv.1 name = true) (b : Str) (below : List Str) :
-    Run (writeChart name c) (b :: below) (mkSt sh dim [Frame.root] ⟨mesh, parts, pts, chs⟩) (b :: below)
-      (mkSt sh dim [Frame.root] ⟨mesh, parts, pts, chs ++ [(name, c)]⟩) := by
-  have := Run_writeChart sh dim mesh parts pts chs name c hok (mapFind_none _ _ hfresh) b below
+    Run (writeChart name c) (b :: below) (mkSt sh dim [Frame.root] ⟨mesh, parts, pts, chs, wdim⟩) (b :: below)
+      (mkSt sh dim [Frame.root] ⟨mesh, parts, pts, chs ++ [(name, c)], wdim⟩) := by
+  have := Run_writeChart sh dim wdim mesh parts pts chs name c hok (mapFind_none _ _ hfresh) b below
   rwa [mapInsert_append _ _ _ hfresh] at this
 
 def chartsLines (chs : List (Str × Chart)) : List Str :=
   (chs.map (fun nc => writeChart nc.1 nc.2)).flatten
 
 /-- **all charts** of a strictly sorted atlas -/
-theorem Run_charts (sh : Shape) (dim : Nat) (mesh : Option Mesh) (parts : List (Str × Part))
+theorem Run_charts (sh : Shape) (dim wdim : Nat) (mesh : Option Mesh) (parts : List (Str × Part))
     (pts : List Partition) (b : Str) (below : List Str) (todo : List (Str × Chart)) :
-    ∀ (done : List (Str × Chart)), (∀ nc ∈ todo, ChartOk dim nc.1 nc.2) →
+    ∀ (done : List (Str × Chart)), (∀ nc ∈ todo, ChartOk wdim nc.1 nc.2) →
     (done ++ todo).Pairwise (fun a b => strLt a.1 b.1 = true) →
-    Run (chartsLines todo) (b :: below) (mkSt sh dim [Frame.root] ⟨mesh, parts, pts, done⟩) (b :: below)
-      (mkSt sh dim [Frame.root] ⟨mesh, parts, pts, done ++ todo⟩) := by
+    Run (chartsLines todo) (b :: below) (mkSt sh dim [Frame.root] ⟨mesh, parts, pts, done, wdim⟩) (b :: below)
+      (mkSt sh dim [Frame.root] ⟨mesh, parts, pts, done ++ todo, wdim⟩) := by
   induction todo with
   | nil => intro done _ _; simpa [chartsLines] using Run.nil _ _
   | cons nc todo ih =>
@@ -583,7 +582,7 @@ theorem Run_charts (sh : Shape) (dim : Nat) (mesh : Option Mesh) (parts : List (
     have hfresh : ∀ kv ∈ done, strLt kv.1 nm = true := by
       intro kv hkv
       exact (List.pairwise_append.1 hsorted).2.2 kv hkv (nm, c) (by simp)
-    have r1 := Run_writeChart_append sh dim mesh parts pts done nm c (hp (nm, c) (by simp)) hfresh b below
+    have r1 := Run_writeChart_append sh dim wdim mesh parts pts done nm c (hp (nm, c) (by simp)) hfresh b below
     have r2 := ih (done ++ [(nm, c)]) (fun nc hnc => hp nc (by simp [hnc])) (by simpa using hsorted)
     have := Run.append r1 r2
     simpa [chartsLines] using this
@@ -706,23 +705,23 @@ theorem openM_unnamed_chart (st : St) (line : Nat) (m : Markup) (rest : List Fra
   simp only [hn, hc, hcl, ha]
   simp
 
-/-- a `<Circle>` inside a chart of a mesh file that is not two-dimensional is a grammar error -/
+/-- a `<Circle>` inside a chart of a mesh file whose world dimension is not 2 is a grammar error -/
 theorem openM_circle_wrong_dim (st : St) (line : Nat) (m : Markup) (name : Str) (o : Option Chart)
     (rest : List Frame) (hstack : st.stack = Frame.chart name o :: rest)
-    (hn : String.ofList m.name = "Circle") (hd : st.dim ≠ 2) :
+    (hn : String.ofList m.name = "Circle") (hd : st.wdim ≠ 2) :
     openM st line m = gErr line := by
-  have hd' : (st.dim == 2) = false := by simpa using hd
+  have hd' : (st.wdim == 2) = false := by simpa using hd
   unfold openM
   rw [hstack]
   simp only [hn, hd']
   simp
 
-/-- a `<Sphere>` inside a chart of a mesh file that is not three-dimensional is a grammar error -/
+/-- a `<Sphere>` inside a chart of a mesh file whose world dimension is not 3 is a grammar error -/
 theorem openM_sphere_wrong_dim (st : St) (line : Nat) (m : Markup) (name : Str) (o : Option Chart)
     (rest : List Frame) (hstack : st.stack = Frame.chart name o :: rest)
-    (hn : String.ofList m.name = "Sphere") (hd : st.dim ≠ 3) :
+    (hn : String.ofList m.name = "Sphere") (hd : st.wdim ≠ 3) :
     openM st line m = gErr line := by
-  have hd' : (st.dim == 3) = false := by simpa using hd
+  have hd' : (st.wdim == 3) = false := by simpa using hd
   unfold openM
   rw [hstack]
   simp only [hn, hd']
@@ -744,24 +743,24 @@ open FeatModel.C11.RT FeatModel.C11.RT2
 set_option linter.unusedSimpArgs false
 
 /-- `openM_mesh` of `C11RoundTrip.lean` for an arbitrary node without a root mesh -/
-theorem openM_mesh_node {sh : Shape} {dim : Nat} (hs : supported sh (dim : Int) (dim : Int) = true)
+theorem openM_mesh_node {sh : Shape} {dim wdim : Nat} (hs : supported sh (dim : Int) (wdim : Int) = true)
     (sizes : List Nat) (hlen : sizes.length = dim + 1) (h64 : ∀ s ∈ sizes, s < 2 ^ 64)
-    (hzb : zeroBelow sizes = false) (node : Node) (hnone : node.mesh = none) (line : Nat) :
+    (hzb : zeroBelow sizes = false) (node : Node) (hnone : node.mesh = none) (hnw : node.wdim = wdim) (line : Nat) :
     openM (mkSt sh dim [Frame.root] node) line
-      (⟨"Mesh".toList, [("size".toList, joinSp (sizes.map showNat)), ("type".toList, meshTypeStr sh dim)],
+      (⟨"Mesh".toList, [("size".toList, joinSp (sizes.map showNat)), ("type".toList, meshTypeStr sh dim wdim)],
         false, false⟩ : Markup) =
       .ok (mkSt sh dim [Frame.mesh sizes none (List.replicate dim none), Frame.root] node) := by
   have hc : checkAttribs line (specOf "Mesh")
-      [("size".toList, joinSp (sizes.map showNat)), ("type".toList, meshTypeStr sh dim)] = .ok () := by
+      [("size".toList, joinSp (sizes.map showNat)), ("type".toList, meshTypeStr sh dim wdim)] = .ok () := by
     simp [checkAttribs, specOf]
-  have hm := meshCreate_printed hs sizes hlen h64 hzb [Frame.root] node line
+  have hm := meshCreate_printed hs sizes hlen h64 hzb [Frame.root] node hnw line
   generalize hst : mkSt sh dim [Frame.root] node = st at hm ⊢
   generalize hmm : (⟨"Mesh".toList, [("size".toList, joinSp (sizes.map showNat)),
-    ("type".toList, meshTypeStr sh dim)], false, false⟩ : Markup) = m at hm ⊢
+    ("type".toList, meshTypeStr sh dim wdim)], false, false⟩ : Markup) = m at hm ⊢
   have hstack : st.stack = [Frame.root] := by rw [← hst]; rfl
   have hnode : st.node.mesh = none := by rw [← hst]; exact hnone
   have hn : String.ofList m.name = "Mesh" := by rw [← hmm]; exact String_ofList_toList _
-  have ha : m.attrs = [("size".toList, joinSp (sizes.map showNat)), ("type".toList, meshTypeStr sh dim)] := by
+  have ha : m.attrs = [("size".toList, joinSp (sizes.map showNat)), ("type".toList, meshTypeStr sh dim wdim)] := by
     rw [← hmm]
   have hcl : m.closed = false := by rw [← hmm]
   unfold openM
@@ -776,33 +775,33 @@ theorem closeTop_mesh_frame_node (sh : Shape) (dim : Nat) (sizes : List Nat) (vs
   simp [closeTop, mkSt, mapMOpt_id_map_some]
 
 /-- the whole `<Mesh>` element read into a node that already holds an atlas -/
-theorem Run_writeMesh_charts {sh : Shape} {dim : Nat} (hs : supported sh (dim : Int) (dim : Int) = true) (m : Mesh)
-    (hwf : m.wf sh dim = true) (h64 : ∀ s ∈ m.sizes, s < 2 ^ 64) (hzb : zeroBelow m.sizes = false)
+theorem Run_writeMesh_charts {sh : Shape} {dim wdim : Nat} (hs : supported sh (dim : Int) (wdim : Int) = true) (m : Mesh)
+    (hwf : m.wf sh dim wdim = true) (h64 : ∀ s ∈ m.sizes, s < 2 ^ 64) (hzb : zeroBelow m.sizes = false)
     (chs : List (Str × Chart)) (b : Str) (below : List Str) :
-    Run (writeMesh sh dim m) (b :: below) (mkSt sh dim [Frame.root] ⟨none, [], [], chs⟩) (b :: below)
-      (mkSt sh dim [Frame.root] ⟨some m, [], [], chs⟩) := by
-  obtain ⟨hsz, hvl, hvr, htl, htp⟩ := (Mesh.wf_iff sh dim m).1 hwf
-  have hdim : 0 < dim ∧ dim ≤ 3 := by
-    rcases supported_cases hs with ⟨-, rfl⟩ | ⟨-, rfl⟩ | ⟨-, rfl⟩ | ⟨-, rfl⟩ | ⟨-, rfl⟩ <;> decide
+    Run (writeMesh sh dim wdim m) (b :: below) (mkSt sh dim [Frame.root] ⟨none, [], [], chs, wdim⟩) (b :: below)
+      (mkSt sh dim [Frame.root] ⟨some m, [], [], chs, wdim⟩) := by
+  obtain ⟨hsz, hvl, hvr, htl, htp⟩ := (Mesh.wf_iff sh dim wdim m).1 hwf
+  have hdim : 0 < dim ∧ dim ≤ 3 := ⟨(supported_pos hs).1, (supported_pos hs).2.1⟩
+  have hwdim : 0 < wdim := (supported_pos hs).2.2.1
   have hbound : m.sizes.getD 0 0 ≤ 2 ^ 64 := by
     cases hm : m.sizes with
     | nil => simp
     | cons a t => have := h64 a (by simp [hm]); simp; omega
-  have e1 : sp 2 ++ "<Mesh type=".toList ++ q (meshTypeStr sh dim) ++ " size=".toList ++
+  have e1 : sp 2 ++ "<Mesh type=".toList ++ q (meshTypeStr sh dim wdim) ++ " size=".toList ++
       q (joinSp (m.sizes.map showNat)) ++ ">".toList =
-      sp 2 ++ '<' :: (('M' :: ("esh type=".toList ++ q (meshTypeStr sh dim) ++ " size=".toList ++
+      sp 2 ++ '<' :: (('M' :: ("esh type=".toList ++ q (meshTypeStr sh dim wdim) ++ " size=".toList ++
         q (joinSp (m.sizes.map showNat)))) ++ ['>']) := by
     simp
-  have hsc : scanMarkup ('<' :: (('M' :: ("esh type=".toList ++ q (meshTypeStr sh dim) ++ " size=".toList ++
+  have hsc : scanMarkup ('<' :: (('M' :: ("esh type=".toList ++ q (meshTypeStr sh dim wdim) ++ " size=".toList ++
         q (joinSp (m.sizes.map showNat)))) ++ ['>'])) =
       .ok (some (⟨"Mesh".toList, [("size".toList, joinSp (m.sizes.map showNat)),
-        ("type".toList, meshTypeStr sh dim)], false, false⟩ : Markup)) :=
+        ("type".toList, meshTypeStr sh dim wdim)], false, false⟩ : Markup)) :=
     scan_mesh_line hs m.sizes
   have r1 := Run_open_line (k := 2) (by decide) hsc rfl rfl
-    (fun line => openM_mesh_node hs m.sizes hsz h64 hzb ⟨none, [], [], chs⟩ rfl line) (b :: below)
-  have r2 := Run_vertices_block sh dim m.sizes (List.replicate dim none) [Frame.root] ⟨none, [], [], chs⟩
-    "Mesh".toList (b :: below) m.verts hdim.1 hvl hvr
-  have r3 := Run_topo_blocks sh dim 4 m.sizes (some m.verts) [Frame.root] ⟨none, [], [], chs⟩ "Mesh".toList
+    (fun line => openM_mesh_node hs m.sizes hsz h64 hzb ⟨none, [], [], chs, wdim⟩ rfl rfl line) (b :: below)
+  have r2 := Run_vertices_block sh dim m.sizes (List.replicate dim none) [Frame.root] ⟨none, [], [], chs, wdim⟩
+    "Mesh".toList (b :: below) m.verts hwdim hvl hvr
+  have r3 := Run_topo_blocks sh dim 4 m.sizes (some m.verts) [Frame.root] ⟨none, [], [], chs, wdim⟩ "Mesh".toList
     (b :: below) hbound m.topo 0 [] rfl (by rw [htl]; have : (3 : Nat) < 2 ^ 64 := by decide
                                             omega)
     (by
@@ -813,7 +812,7 @@ theorem Run_writeMesh_charts {sh : Shape} {dim : Nat} (hs : supported sh (dim : 
   rw [htl] at r3
   have e4 : "</Mesh>".toList = '<' :: (('/' :: "Mesh".toList) ++ ['>']) := by decide
   have r4 := Run_close_line (k := 2) (nm := "Mesh".toList) (by decide)
-    (fun line => closeTop_mesh_frame_node sh dim m.sizes m.verts m.topo [Frame.root] ⟨none, [], [], chs⟩ line) b below
+    (fun line => closeTop_mesh_frame_node sh dim m.sizes m.verts m.topo [Frame.root] ⟨none, [], [], chs, wdim⟩ line) b below
   have hm : ({ sizes := m.sizes, verts := m.verts, topo := m.topo } : Mesh) = m := by cases m; rfl
   rw [hm] at r4
   have := Run.append (Run.append (Run.append r1 r2) r3) r4
@@ -821,15 +820,15 @@ theorem Run_writeMesh_charts {sh : Shape} {dim : Nat} (hs : supported sh (dim : 
   rw [e1, e4, writeTopo_eq]
   simpa using this
 
-theorem writeLines_node_charts (sh : Shape) (dim : Nat) (m : Mesh) (parts : List (Str × Part))
+theorem writeLines_node_charts (sh : Shape) (dim wdim : Nat) (m : Mesh) (parts : List (Str × Part))
     (pts : List Partition) (chs : List (Str × Chart)) :
-    writeLines sh dim { mesh := some m, parts := parts, partitions := pts, charts := chs } =
-      rootLine sh dim :: (chartsLines chs ++ bodyLines sh dim m parts pts ++ ["</FeatMeshFile>".toList]) := by
+    writeLines sh dim { mesh := some m, parts := parts, partitions := pts, charts := chs, wdim := wdim } =
+      rootLine sh dim wdim :: (chartsLines chs ++ bodyLines sh dim wdim m parts pts ++ ["</FeatMeshFile>".toList]) := by
   unfold writeLines rootLine bodyLines partsLines ptsLines chartsLines
   dsimp only
   simp only [List.cons_append, List.nil_append, List.append_assoc]
 
-theorem nl_chartsLines (dim : Nat) (chs : List (Str × Chart)) (hc : ∀ nc ∈ chs, ChartOk dim nc.1 nc.2) :
+theorem nl_chartsLines (wdim : Nat) (chs : List (Str × Chart)) (hc : ∀ nc ∈ chs, ChartOk wdim nc.1 nc.2) :
     ∀ l ∈ chartsLines chs, '\n' ∉ l := by
   intro l hl
   simp only [chartsLines, List.mem_flatten, List.mem_map] at hl
@@ -889,62 +888,64 @@ theorem nl_chartsLines (dim : Nat) (chs : List (Str × Chart)) (hc : ∀ nc ∈ 
     | bezier cl o segs params => exact absurd rfl (hnb cl o segs params)
   · exact nl_close_line 2 _ (by decide)
 
-theorem splitLines_node_charts {sh : Shape} {dim : Nat} (hs : supported sh (dim : Int) (dim : Int) = true) {m : Mesh}
-    {parts : List (Str × Part)} {pts : List Partition} (h : NodeOk sh dim m parts pts)
-    (chs : List (Str × Chart)) (hc : ∀ nc ∈ chs, ChartOk dim nc.1 nc.2) :
-    splitLines (printMeshFile sh dim { mesh := some m, parts := parts, partitions := pts, charts := chs }) =
-      rootLine sh dim :: (chartsLines chs ++ bodyLines sh dim m parts pts ++ ["</FeatMeshFile>".toList]) ++ [[]] := by
+theorem splitLines_node_charts {sh : Shape} {dim wdim : Nat} (hs : supported sh (dim : Int) (wdim : Int) = true) {m : Mesh}
+    {parts : List (Str × Part)} {pts : List Partition} (h : NodeOk sh dim wdim m parts pts)
+    (chs : List (Str × Chart)) (hc : ∀ nc ∈ chs, ChartOk wdim nc.1 nc.2) :
+    splitLines (printMeshFile sh dim { mesh := some m, parts := parts, partitions := pts, charts := chs, wdim := wdim }) =
+      rootLine sh dim wdim :: (chartsLines chs ++ bodyLines sh dim wdim m parts pts ++ ["</FeatMeshFile>".toList]) ++ [[]] := by
   unfold splitLines printMeshFile
   rw [writeLines_node_charts, splitChar_flatMap '\n']
   intro l hl
   simp only [List.mem_cons, List.mem_append, List.not_mem_nil, or_false] at hl
   rcases hl with rfl | (hl | hl) | rfl
   · exact nl_rootLine hs
-  · exact nl_chartsLines dim chs hc l hl
+  · exact nl_chartsLines wdim chs hc l hl
   · exact nl_bodyLines hs h l hl
   · decide
 
-theorem Run_body_charts {sh : Shape} {dim : Nat} (hs : supported sh (dim : Int) (dim : Int) = true) {m : Mesh}
-    {parts : List (Str × Part)} {pts : List Partition} (h : NodeOk sh dim m parts pts)
-    (chs : List (Str × Chart)) (hc : ∀ nc ∈ chs, ChartOk dim nc.1 nc.2)
+theorem Run_body_charts {sh : Shape} {dim wdim : Nat} (hs : supported sh (dim : Int) (wdim : Int) = true) {m : Mesh}
+    {parts : List (Str × Part)} {pts : List Partition} (h : NodeOk sh dim wdim m parts pts)
+    (chs : List (Str × Chart)) (hc : ∀ nc ∈ chs, ChartOk wdim nc.1 nc.2)
     (hcs : chs.Pairwise (fun a b => strLt a.1 b.1 = true)) (b : Str) (below : List Str) :
-    Run (chartsLines chs ++ bodyLines sh dim m parts pts) (b :: below) (mkSt sh dim [Frame.root] emptyNode)
-      (b :: below) (mkSt sh dim [Frame.root] { mesh := some m, parts := parts, partitions := pts, charts := chs }) := by
+    Run (chartsLines chs ++ bodyLines sh dim wdim m parts pts) (b :: below) (mkSt sh dim [Frame.root] (emptyNode wdim))
+      (b :: below) (mkSt sh dim [Frame.root] { mesh := some m, parts := parts, partitions := pts, charts := chs, wdim := wdim }) := by
   have hdim : dim + 1 < 2 ^ 64 := by
-    rcases supported_cases hs with ⟨-, rfl⟩ | ⟨-, rfl⟩ | ⟨-, rfl⟩ | ⟨-, rfl⟩ | ⟨-, rfl⟩ <;> decide
-  have r0 := Run_charts sh dim none [] [] b below chs [] hc (by simpa using hcs)
+    have := supported_pos hs
+    have : (4 : Nat) < 2 ^ 64 := by decide
+    omega
+  have r0 := Run_charts sh dim wdim none [] [] b below chs [] hc (by simpa using hcs)
   have r1 := Run_writeMesh_charts hs m h.hwf h.h64 h.hzb chs b below
-  have r2 := Run_parts (chs := chs) sh dim (some m) [] hdim b below parts [] h.hp (by simpa using h.hsorted)
-  have r3 := Run_partitions (chs := chs) sh dim (some m) parts b below pts [] h.hpt
+  have r2 := Run_parts (chs := chs) (wdim := wdim) sh dim (some m) [] hdim b below parts [] h.hp (by simpa using h.hsorted)
+  have r3 := Run_partitions (chs := chs) (wdim := wdim) sh dim (some m) parts b below pts [] h.hpt
   have := Run.append r0 (Run.append (Run.append r1 r2) r3)
   simpa [bodyLines, emptyNode] using this
 
-theorem scanLoop_node_charts {sh : Shape} {dim : Nat} (hs : supported sh (dim : Int) (dim : Int) = true) {m : Mesh}
-    {parts : List (Str × Part)} {pts : List Partition} (h : NodeOk sh dim m parts pts)
-    (chs : List (Str × Chart)) (hc : ∀ nc ∈ chs, ChartOk dim nc.1 nc.2)
+theorem scanLoop_node_charts {sh : Shape} {dim wdim : Nat} (hs : supported sh (dim : Int) (wdim : Int) = true) {m : Mesh}
+    {parts : List (Str × Part)} {pts : List Partition} (h : NodeOk sh dim wdim m parts pts)
+    (chs : List (Str × Chart)) (hc : ∀ nc ∈ chs, ChartOk wdim nc.1 nc.2)
     (hcs : chs.Pairwise (fun a b => strLt a.1 b.1 = true)) (i : Nat) :
-    scanLoop meshClient (chartsLines chs ++ bodyLines sh dim m parts pts ++ ["</FeatMeshFile>".toList] ++ [[]]) i
-      ["FeatMeshFile".toList] (mkSt sh dim [Frame.root] emptyNode) =
-      .ok (mkSt sh dim [] { mesh := some m, parts := parts, partitions := pts, charts := chs }) := by
+    scanLoop meshClient (chartsLines chs ++ bodyLines sh dim wdim m parts pts ++ ["</FeatMeshFile>".toList] ++ [[]]) i
+      ["FeatMeshFile".toList] (mkSt sh dim [Frame.root] (emptyNode wdim)) =
+      .ok (mkSt sh dim [] { mesh := some m, parts := parts, partitions := pts, charts := chs, wdim := wdim }) := by
   obtain ⟨j, hj⟩ := Run_body_charts hs h chs hc hcs "FeatMeshFile".toList [] (["</FeatMeshFile>".toList] ++ [[]]) i
   rw [List.append_assoc, hj]
   have e : "</FeatMeshFile>".toList = '<' :: (('/' :: "FeatMeshFile".toList) ++ ['>']) := by decide
   rw [e]
   exact final_close_line (by decide) (fun line => closeTop_root_frame sh dim _ line) _ j
 
-theorem parseBody_node_charts {sh : Shape} {dim : Nat} (hs : supported sh (dim : Int) (dim : Int) = true) {m : Mesh}
-    {parts : List (Str × Part)} {pts : List Partition} (h : NodeOk sh dim m parts pts)
-    (chs : List (Str × Chart)) (hc : ∀ nc ∈ chs, ChartOk dim nc.1 nc.2)
+theorem parseBody_node_charts {sh : Shape} {dim wdim : Nat} (hs : supported sh (dim : Int) (wdim : Int) = true) {m : Mesh}
+    {parts : List (Str × Part)} {pts : List Partition} (h : NodeOk sh dim wdim m parts pts)
+    (chs : List (Str × Chart)) (hc : ∀ nc ∈ chs, ChartOk wdim nc.1 nc.2)
     (hcs : chs.Pairwise (fun a b => strLt a.1 b.1 = true)) (i : Nat) :
-    parseBody sh dim (rootMarkup sh dim) i
-        (chartsLines chs ++ bodyLines sh dim m parts pts ++ ["</FeatMeshFile>".toList] ++ [[]]) =
-      .ok sh dim { mesh := some m, parts := parts, partitions := pts, charts := chs } := by
-  have hck : checkAttribs i (specOf "root") (rootMarkup sh dim).attrs = .ok () := by
+    parseBody sh dim wdim (rootMarkup sh dim wdim) i
+        (chartsLines chs ++ bodyLines sh dim wdim m parts pts ++ ["</FeatMeshFile>".toList] ++ [[]]) =
+      .ok sh dim { mesh := some m, parts := parts, partitions := pts, charts := chs, wdim := wdim } := by
+  have hck : checkAttribs i (specOf "root") (rootMarkup sh dim wdim).attrs = .ok () := by
     unfold rootMarkup
     simp [checkAttribs, specOf]
-  have hn : (rootMarkup sh dim).name = "FeatMeshFile".toList := rfl
+  have hn : (rootMarkup sh dim wdim).name = "FeatMeshFile".toList := rfl
   have hl := scanLoop_node_charts hs h chs hc hcs i
-  have hmap : mapOutOfRange { mesh := some m, parts := parts, partitions := pts, charts := chs } = false := h.hmap
+  have hmap : mapOutOfRange { mesh := some m, parts := parts, partitions := pts, charts := chs, wdim := wdim } = false := h.hmap
   unfold mkSt emptyNode at hl
   unfold parseBody
   simp only [hck, hn, hl]
@@ -956,46 +957,46 @@ namespace FeatModel.C11
 
 /-- **parse ∘ print = id** for a file with an atlas (`Circle` / `Sphere` / `Bezier` charts, see `ChartOk`), a root mesh, mesh parts with
     mappings, own (full) topology and attribute sets (not linked to a chart), and partitions -/
-theorem parse_print_node_charts (sh : Shape) (dim : Nat) (m : Mesh) (parts : List (Str × Part))
+theorem parse_print_node_charts (sh : Shape) (dim wdim : Nat) (m : Mesh) (parts : List (Str × Part))
     (partitions : List Partition) (charts : List (Str × Chart))
-    (hs : supported sh (dim : Int) (dim : Int) = true)
-    (hwf : m.wf sh dim = true)
+    (hs : supported sh (dim : Int) (wdim : Int) = true)
+    (hwf : m.wf sh dim wdim = true)
     (h64 : ∀ s ∈ m.sizes, s < 2 ^ 64)
     (hzb : zeroBelow m.sizes = false)
     (hp : ∀ np ∈ parts, PartOkFull sh dim np.1 np.2)
     (hsorted : parts.Pairwise (fun a b => strLt a.1 b.1 = true))
     (hpt : ∀ p ∈ partitions, PartitionOk p)
-    (hmap : mapOutOfRange ⟨some m, parts, partitions, []⟩ = false)
-    (hc : ∀ nc ∈ charts, ChartOk dim nc.1 nc.2)
+    (hmap : mapOutOfRange ⟨some m, parts, partitions, [], wdim⟩ = false)
+    (hc : ∀ nc ∈ charts, ChartOk wdim nc.1 nc.2)
     (hcs : charts.Pairwise (fun a b => strLt a.1 b.1 = true)) :
-    parseMeshFile (printMeshFile sh dim { mesh := some m, parts := parts, partitions := partitions, charts := charts })
-      = .ok sh dim { mesh := some m, parts := parts, partitions := partitions, charts := charts } := by
-  have h : RT2.NodeOk sh dim m parts partitions := ⟨hwf, h64, hp, hsorted, hpt, hzb, hmap⟩
+    parseMeshFile (printMeshFile sh dim { mesh := some m, parts := parts, partitions := partitions, charts := charts, wdim := wdim })
+      = .ok sh dim { mesh := some m, parts := parts, partitions := partitions, charts := charts, wdim := wdim } := by
+  have h : RT2.NodeOk sh dim wdim m parts partitions := ⟨hwf, h64, hp, hsorted, hpt, hzb, hmap⟩
   unfold parseMeshFile
   rw [CH.splitLines_node_charts hs h charts hc, List.cons_append, RT.readRoot_print hs]
   simp only [RT.rootType_print hs, hs, Bool.not_true, Bool.false_eq_true, if_false, Int.toNat_natCast]
   exact CH.parseBody_node_charts hs h charts hc hcs 1
 
 /-- **print ∘ parse ∘ print = print** (byte for byte) for a file with an atlas -/
-theorem print_parse_print_node_charts (sh : Shape) (dim : Nat) (m : Mesh) (parts : List (Str × Part))
+theorem print_parse_print_node_charts (sh : Shape) (dim wdim : Nat) (m : Mesh) (parts : List (Str × Part))
     (partitions : List Partition) (charts : List (Str × Chart))
-    (hs : supported sh (dim : Int) (dim : Int) = true)
-    (hwf : m.wf sh dim = true)
+    (hs : supported sh (dim : Int) (wdim : Int) = true)
+    (hwf : m.wf sh dim wdim = true)
     (h64 : ∀ s ∈ m.sizes, s < 2 ^ 64)
     (hzb : zeroBelow m.sizes = false)
     (hp : ∀ np ∈ parts, PartOkFull sh dim np.1 np.2)
     (hsorted : parts.Pairwise (fun a b => strLt a.1 b.1 = true))
     (hpt : ∀ p ∈ partitions, PartitionOk p)
-    (hmap : mapOutOfRange ⟨some m, parts, partitions, []⟩ = false)
-    (hc : ∀ nc ∈ charts, ChartOk dim nc.1 nc.2)
+    (hmap : mapOutOfRange ⟨some m, parts, partitions, [], wdim⟩ = false)
+    (hc : ∀ nc ∈ charts, ChartOk wdim nc.1 nc.2)
     (hcs : charts.Pairwise (fun a b => strLt a.1 b.1 = true)) :
     ∀ sh' dim' n',
       parseMeshFile (printMeshFile sh dim
-          { mesh := some m, parts := parts, partitions := partitions, charts := charts }) = .ok sh' dim' n' →
+          { mesh := some m, parts := parts, partitions := partitions, charts := charts, wdim := wdim }) = .ok sh' dim' n' →
       printMeshFile sh' dim' n' =
-        printMeshFile sh dim { mesh := some m, parts := parts, partitions := partitions, charts := charts } := by
+        printMeshFile sh dim { mesh := some m, parts := parts, partitions := partitions, charts := charts, wdim := wdim } := by
   intro sh' dim' n' h
-  rw [parse_print_node_charts sh dim m parts partitions charts hs hwf h64 hzb hp hsorted hpt hmap hc hcs] at h
+  rw [parse_print_node_charts sh dim wdim m parts partitions charts hs hwf h64 hzb hp hsorted hpt hmap hc hcs] at h
   injection h with h1 h2 h3
   subst h1 h2 h3
   rfl
